@@ -103,6 +103,10 @@ def run(ctx):
     ctx.rule = ("side-drilled holes (radius 0.1-2 mm, 1-10 MHz, random L/T velocities), crack centres (length 0.5-3 mm, general and optimised kernels), point sources; "
                 "angle arrays of several broadcastable shapes over [-2 pi, 2 pi]; every relation of the property; distinct = distinct scatterer/angles; all cases non-trivial")
     lines, meta = [], []
+    # every scatterer object built during the run is kept and questioned again at the end, after all the others have
+    # been created and used: its values must be those it gave when it was new (and still satisfy the relations)
+    keep = []
+    probe_a, probe_b = rng.uniform(-3, 3, size=5), rng.uniform(-3, 3, size=5)
     for _ in range(12 * ctx.scale):
         vl = float(rng.uniform(4000, 6500))
         vt = float(vl * rng.uniform(0.45, 0.65))
@@ -111,6 +115,7 @@ def run(ctx):
         radius = float(rng.uniform(0.1e-3, 2e-3))
         obj = scat.scat_factory("sdh", mat, radius)
         cj = {"op": "sdh", "vl": vl, "vt": vt, "frequency": freq, "radius": radius}
+        keep.append(("sdh", obj, vl, vt, freq, cj, obj(probe_a, probe_b, freq)))
         ctx.case(("sdh", vl, vt, freq, radius), True, sample=cj)
         sym_checks(ctx, "sdh", obj, vl, vt, freq, cj, 1e-9, sdh=True)
         # correspondence of the modal sums
@@ -121,6 +126,7 @@ def run(ctx):
         lines.append(f"sdh {f2b(alpha)} {f2b(beta)} {maxn} {cl(aLL)} {cl(x)} {cl(bTT)} {fl(inc)} {fl(out)}")
         meta.append((r, cj))
         pt = scat.scat_factory("point", mat)
+        keep.append(("point", pt, vl, vt, freq, {"op": "point", "vl": vl, "vt": vt}, pt(probe_a, probe_b, freq)))
         ctx.case(("point", vl, vt), True)
         sym_checks(ctx, "point", pt, vl, vt, freq, {"op": "point", "vl": vl, "vt": vt}, 1e-12)
     for _ in range(3 * ctx.scale):
@@ -134,6 +140,7 @@ def run(ctx):
         cj = {"op": "crack_centre", "vl": vl, "vt": vt, "density": rho, "frequency": freq, "crack_length": length, "nodes_per_wavelength": npw}
         ctx.case(("crack", vl, vt, rho, freq, length, npw), True, sample=cj)
         obj = scat.scat_factory("crack_centre", mat, length, nodes_per_wavelength=npw)
+        keep.append(("crack_centre", obj, vl, vt, freq, cj, obj(probe_a, probe_b, freq)))
         # exchange symmetries hold to rounding; periodicity only to 1e-5: basis_function switches between a series and a closed
         # form at |k| = 0.1 where the closed form loses about nine digits (conditioning of the implementation)
         sym_checks(ctx, "crack_centre", obj, vl, vt, freq, cj, 1e-9, periodic_tol=1e-5, shapes=False)
@@ -146,6 +153,17 @@ def run(ctx):
         sc = max(np.abs(g1[k]).max() for k in KEYS)
         if max(np.abs(g1[k] - g2[k]).max() for k in KEYS) > 1e-10 * sc:
             ctx.violate("crack centre: optimised and general kernels disagree", cj, {"kind": "crack_kernels"})
+    for name, obj, vl, vt, freq, cj, first in keep:
+        again = obj(probe_a, probe_b, freq)
+        ctx.count("requestioned_after_other_scatterers")
+        if any(not np.array_equal(np.asarray(again[k]), np.asarray(first[k])) for k in KEYS):
+            ctx.violate(f"{name}: the values of a scatterer changed after other scatterers were created and used "
+                        "(they no longer belong to its own material, size and frequency)", cj, {"kind": "state_isolation", "scatterer": name})
+            continue
+        rt = obj(probe_b, probe_a, freq)
+        scale = max(np.abs(again[k]).max() for k in KEYS) + 1e-300
+        if np.abs(vt ** 2 * again["LT"] + vl ** 2 * rt["TL"]).max() > 1e-9 * scale * vl ** 2:
+            ctx.violate(f"{name}: v_T^2 S_LT(a,b) != -v_L^2 S_TL(b,a) when questioned again at the end of the run", cj, {"kind": "reciprocity", "scatterer": name})
     answers = ctx.drive(lines) if ctx.lean.driver_ok and not ctx.oracle_only else []
     for (r, cj), a in zip(meta, answers):
         if not a.startswith("ok "):
